@@ -88,8 +88,8 @@ def injected_failures(run, quick):
 
 
 ATTR_VALUES = {
-    "Name": ["n2", "n1", "fresh"], "Object Group": ["og2", "og1", "fresh"],
-    "Application Specific Information": [["ns", "d2"], ["ns", "d1"], ["zz", "zz"]],
+    "Name": ["n2", "n1", "fresh", ""], "Object Group": ["og2", "og1", "fresh", ""],
+    "Application Specific Information": [["ns", "d2"], ["ns", "d1"], ["zz", "zz"], ["backup", ""], ["", "d9"]],
     "Sensitive": [True, False], "Operation Policy Name": ["public", "default"], "Cryptographic Usage Mask": [["SIGN"], ["ENCRYPT"]],
     "State": ["Active"], "Cryptographic Length": [256, 128], "Cryptographic Algorithm": ["AES"], "Initial Date": [5],
     "Object Type": ["SecretData"], "Unique Identifier": ["77"], "Contact Information": ["me"], "x-custom": ["zz"]}
